@@ -960,8 +960,41 @@ def any_rules(ctx) -> None:
                 core = p.operand if isinstance(p, ast.UnaryOp) and isinstance(p.op, ast.Not) else None
                 if core is not None and isinstance(core, ast.Call) and call_fname(core) == "isinstance":
                     typ = True
+        if not rej:
+            rej = _evo_rejects(ctx, g, vname, "any")
+        if not typ:
+            typ = _evo_rejects(ctx, g, vname, "type")
         ctx.rep.check(rej, rule, f"{g.qualname}/any", "Tip.Any is rejected for EVO script commands", f"{vname} accepts Tip.Any: it contributes -1 to the tip mask", where=g.where())
         ctx.rep.check(typ, "C10.type-guard", f"{g.qualname}/element-type", "elements that are neither int nor Tip raise ValueError", f"{vname} does not reject elements that are neither int nor Tip with ValueError", where=g.where())
+
+
+def _evo_rejects(ctx, g, vname: str, what: str) -> bool:
+    """The element checks of an EVO validator in a form that the structural test does not know: the validator is interpreted
+    (rules/init_model.py; nothing of the repository is executed) for tip lists that hold Tip.Any / a non-int element, and
+    every one of them has to end in a ValueError raised by the validator's own statements."""
+    from . import init_model as IM
+
+    try:
+        members = _tip_table(ctx, "C10.any")
+    except AnalysisInconclusive:
+        return False
+    enums = {"Tip": dict(members)}
+    any_ = IM.EnumVal(members["Any"], "Tip", "Any") if "Any" in members else None
+    if any_ is None:
+        return False
+    tip_lists = [[any_], [1, any_], [any_, 2]] if what == "any" else [[2.0], ["1"], [1, 2.5]]
+    for tips in tip_lists:
+        if vname == "prepare_evo_wash_parameters":
+            params = dict(tips=tips, waste_location=(52, 2), cleaner_location=(52, 1), arm=0, waste_vol=3.0, waste_delay=500, cleaner_vol=4.0, cleaner_delay=500, airgap=10, airgap_speed=70,
+                          retract_speed=30, fastwash=1, low_volume=0)
+        else:
+            params = dict(wells=["A01", "B01"][:len(tips)], labware_position=(30, 2), volume=10.0, liquid_class="Water", tips=tips, arm=0, max_volume=950)
+        if not set(params) <= set(g.params):
+            return False
+        kind, val = IM.run_function(g, params, ctx.prog, enums)
+        if kind != "raise" or val != "ValueError":
+            return False
+    return True
 
 
 def _is_any(e: ast.AST) -> bool:
